@@ -36,10 +36,15 @@ inductive Nep18 where
   deriving Repr, DecidableEq
 
 /-- `SparseArray.__array_function__(func, types, args, kwargs)` with `path = func.__module__.split(".")[1:]`,
-`name = func.__name__`, `nargs = len(args)`, `nkw = len(kwargs)` -/
-def nep18 (env : Env) (path : List Name) (name : Name) (nargs nkw : Nat) : Nep18 :=
+`name = func.__name__`, `nargs = len(args)`, `nkw = len(kwargs)`.
+
+`fallback` is the generated `Gen.nep18BindFallback` (does the source contain the `_binds` step); `nsBinds` / `tyBinds`
+say whether `inspect.signature(·).bind(*args, **kwargs)` succeeds for the namespace function / for the attribute of the
+type.  Without the step the namespace function is called whatever the arguments are. -/
+def nep18 (env : Env) (fallback nsBinds tyBinds : Bool) (path : List Name) (name : Name) (nargs nkw : Nat) : Nep18 :=
   match env.nsGet path name with
-  | some _ => .callNamespace
+  | some _ =>
+    if fallback && !nsBinds && env.tyGet name == some true && tyBinds then .callTypeAttr else .callNamespace
   | none =>
     let ta := env.tyGet name
     if ta != some true && nargs == 1 && nkw == 0 && env.instHas name then .attrValue
@@ -156,6 +161,16 @@ def bindArg (s : Sig) : Way → Except Err Bound
     if (s.pos ++ s.kwonly).contains n then .ok (.param n)
     else if s.varkw then .ok .varkw else .error Err.type
 
+/-- does a whole call — `npos` positional arguments and the keywords `kws` — bind to the signature (Python's
+`Signature.bind`): not too many positionals, every keyword names a parameter that can be passed by keyword and was not
+already filled positionally, every parameter without a default is supplied -/
+def bindsCall (s : Sig) (npos : Nat) (kws : List Name) : Bool :=
+  let positional := s.positional
+  let filled := positional.take npos
+  (npos ≤ positional.length || s.varargs) &&
+  (kws.all fun k => ((s.pos ++ s.kwonly).contains k && !filled.contains k) || s.varkw) &&
+  (s.params.all fun p => filled.contains p || kws.contains p || (s.defaults.lookup p).isSome)
+
 /-! ## resolving a spelling -/
 
 inductive Spelling where
@@ -269,12 +284,26 @@ def resolveMethod (t : List Entry) (cls op : Name) : Except Err Target :=
     | some (u, _) => .ok { core := .ufunc u, kw := [] }
     | none => .error Err.internal
 
-/-- `np.<pub>(x, …)` with `nargs` positional arguments and `nkw` keywords -/
-def resolveNep18 (t : List Entry) (cls pub : Name) (nargs nkw : Nat) : Except Err Target :=
+/-- signature as seen by the caller of `type(self).name(x, …)`: `self` is the first positional parameter -/
+def callSig (e : Entry) (viaType : Bool) : Sig :=
+  if viaType then { e.sig with posonly := nm_self :: e.sig.posonly } else e.sig
+
+/-- the lookup for a call with `npos` positional arguments and the keywords `kws`, in the environment read off the source -/
+def nep18Gen (t : List Entry) (cls : Name) (mpath : List Name) (name : Name) (npos : Nat) (kws : List Name) : Nep18 :=
+  let nsB := match mpath, nsEntry t name with
+    | [], some e => bindsCall e.sig npos kws
+    | _, _ => true      -- not a function of the package (a NumPy ufunc, a class, …): `_binds` answers True or the call is NumPy's business
+  let tyB := match classEntry t cls name with
+    | some e => entryCallable e && bindsCall (callSig e true) npos kws
+    | none => false
+  nep18 (genEnv t cls) nep18BindFallback nsB tyB mpath name npos kws.length
+
+/-- `np.<pub>(x, …)` with `npos` positional arguments and the keywords `kws` -/
+def resolveNep18 (t : List Entry) (cls pub : Name) (npos : Nat) (kws : List Name) : Except Err Target :=
   match numpyFunctions.find? (fun e => e.1 == pub) with
   | none => .error Err.internal
   | some (_, mpath, name) =>
-    match nep18 (genEnv t cls) mpath name nargs nkw with
+    match nep18Gen t cls mpath name npos kws with
     | .callNamespace => resolveNamespace t cls name
     | .callTypeAttr => resolveMethod t cls name
     | .attrValue =>
@@ -289,7 +318,7 @@ def resolveUfuncCall (t : List Entry) (cls u : Name) : Except Err Target :=
   | .elemwise => .ok { core := .ufunc u, kw := [] }
   | .arrayFunction =>
     -- `__array_function__(ufunc, …)`: a ufunc has no `__module__`, so the walk starts and ends at `sparse`
-    (match nep18 (genEnv t cls) [] u 2 0 with
+    (match nep18Gen t cls [] u 2 [] with
      | .callNamespace => resolveNamespace t cls u
      | .callTypeAttr => resolveMethod t cls u
      | _ => .error Err.type)
@@ -310,7 +339,7 @@ def resolve (t : List Entry) (cls : Name) : Spelling → Except Err Target
   | .namespaceFn op => throughArrayUfunc t cls (resolveNamespace t cls op)
   | .arrayNamespace op =>
     if arrayNamespaceModule == nm_sparse then throughArrayUfunc t cls (resolveNamespace t cls op) else .error Err.internal
-  | .nep18 pub => throughArrayUfunc t cls (resolveNep18 t cls pub 1 0)
+  | .nep18 pub => throughArrayUfunc t cls (resolveNep18 t cls pub 1 [])
   | .ufuncCall u => resolveUfuncCall t cls u
   | .ufuncReduce u =>
     match arrayUfuncReduce true (gufuncs.contains u) with
@@ -392,17 +421,18 @@ def droppedViolations (t : List Entry) (cls : Name) (shared : List Name) : List 
 
 /-! ### the NEP-18 spelling: NumPy's calling convention against the signature reached by name -/
 
-/-- the entry that `np.<f>(x, …)` calls (with more than one argument, so that the attribute fallback is off), and
-whether it is called as `type(self).name(x, …)` (the first positional argument is `self`) -/
+/-- the entry that `np.<f>(x, …)` reaches BY NAME (the namespace function if there is one, else the callable attribute of
+the type), and whether it is called as `type(self).name(x, …)` (the first positional argument is `self`) -/
 def nep18Entry (t : List Entry) (cls : Name) (mpath : List Name) (name : Name) : Option (Entry × Bool) :=
-  match nep18 (genEnv t cls) mpath name 2 0 with
+  match nep18 (genEnv t cls) false true true mpath name 2 0 with
   | .callNamespace => (nsEntry t name).map fun e => (e, false)
   | .callTypeAttr => (classEntry t cls name).bind fun e => if entryCallable e then some (e, true) else none
   | _ => none
 
-/-- signature as seen by the caller of `type(self).name(x, …)`: `self` is the first positional parameter -/
-def callSig (e : Entry) (viaType : Bool) : Sig :=
-  if viaType then { e.sig with posonly := nm_self :: e.sig.posonly } else e.sig
+/-- the method the `_binds` step falls back to (only if the source has that step and the by-name target is the namespace
+function) -/
+def fallbackEntry (t : List Entry) (cls name : Name) (viaType : Bool) : Option Entry :=
+  if nep18BindFallback && !viaType then (classEntry t cls name).bind fun e => if entryCallable e then some e else none else none
 
 /-- the parameter names under which the library knows the operation `name`: the method's and the namespace function's -/
 def vocabulary (t : List Entry) (cls name : Name) : List Name :=
@@ -439,8 +469,23 @@ def probeAt (sg : Sig) (param : Name) (way : Way) : ProbeResult :=
       | .pos 0 => .accepted            -- the array operand itself, whatever it is called
       | _ => .misbound q
 
+def ProbeResult.ok : ProbeResult → Bool
+  | .accepted => true
+  | .catchAll => true
+  | _ => false
+
+/-- a probe at the by-name target, with the fallback of the `_binds` step: if the target does not take the argument and the
+method of the same name does, the method is called -/
+def probeWith (sg : Sig) (fb : Option Entry) (param : Name) (way : Way) : ProbeResult :=
+  let primary := probeAt sg param way
+  if primary.ok then primary else
+  match fb with
+  | some em => let r := probeAt (callSig em true) param way; if r.ok then r else primary
+  | none => primary
+
 def probe (t : List Entry) (cls : Name) (pr : Probe) : Option ProbeResult :=
-  (nep18Entry t cls pr.mpath pr.name).map fun (e, viaType) => probeAt (callSig e viaType) pr.param pr.way
+  (nep18Entry t cls pr.mpath pr.name).map fun (e, viaType) =>
+    probeWith (callSig e viaType) (fallbackEntry t cls pr.name viaType) pr.param pr.way
 
 /-- the probes of one NumPy function with their outcomes: every parameter of NumPy's signature that is in the
 library's vocabulary for that name × every way NumPy offers it (the by-name target is looked up once) -/
@@ -451,16 +496,12 @@ def probesOf (t : List Entry) (cls : Name) (f : Name × List Name × Name × Sig
   | some (e, viaType) =>
     let voc := vocabulary t cls name
     let sg := callSig e viaType
+    let fb := fallbackEntry t cls name viaType
     ((numpyWays s).filter fun (p, w) => w == Way.pos 0 || voc.contains p).map fun (p, w) =>
-      ({ pub := pub, mpath := mpath, name := name, param := p, way := w }, probeAt sg p w)
+      ({ pub := pub, mpath := mpath, name := name, param := p, way := w }, probeWith sg fb p w)
 
 /-- all probes, for every NumPy function the library answers to -/
 def probes (t : List Entry) (cls : Name) : List (Probe × ProbeResult) := numpySigs.flatMap (probesOf t cls)
-
-def ProbeResult.ok : ProbeResult → Bool
-  | .accepted => true
-  | .catchAll => true
-  | _ => false
 
 /-- region of finding F-nep18-signature: the argument is rejected or bound to another parameter BY ARGUMENT BINDING at
 the function that `__array_function__` reached by name; a structural property of two signatures, not a list of names -/
@@ -481,6 +522,7 @@ def kwInconsistent (t : List Entry) (cls : Name) (ps : List (Probe × ProbeResul
       match nep18Entry t cls pr.mpath pr.name with
       | some (_, true) => false       -- it IS the method
       | some (e, false) =>
+        if !(probeAt e.sig p pr.way).ok then false else   -- taken by the method through the `_binds` step
         match classEntry t cls pr.name with
         | none => false
         | some em =>
